@@ -1276,7 +1276,10 @@ def run_conc_property(ctx):
         # the harness's watchdog); histories with expiry, both housekeeping regimes, un-synced bursts
         k = 1 if quick else 10
         stage_v(ctx, [("sync-small", 60 * k, 40), ("sync-far", 60 * k, 16), ("sync-exp", 60 * k, 30),
-                      ("sync-burst", 100 * k, 3), ("sync-flush", 14, 0)])
+                      ("sync-burst", 100 * k, 3), ("sync-flush", 14, 0),
+                      # the same histories with a weigher that looks its key up in the cache it belongs
+                      # to (a callback of the user must not run under a lock of the cache)
+                      ("sync-small+reent", 12 * k, 30), ("sync-far+reent", 6 * k, 16)])
 
 
 def stage_conc_exp(ctx):
